@@ -60,7 +60,7 @@ PROPS = {
     "C04": {"targets": [V3 + ".__init__", V3 + ".data_received", V3 + ".read"], "level": "proof"},
     "C05": {"targets": [V3 + ".__init__", V3 + "._encode_encrypted_request", V3 + "._decode_encrypted_response", V3 + "._process_packet",
                         V3 + "._process_packet#interop", V3 + ".write"], "level": "proof"},
-    "C06": {"targets": [V3 + ".__init__", LANC + ".authenticate#hex_credentials", V3 + "._process_packet", V3 + ".read", V3 + "._encode_handshake_request", V3 + "._get_local_key", V3 + "._get_local_key#genuine", V3 + ".authenticate",
+    "C06": {"targets": [V3 + "._process_packet#handshake_reply_bits", V3 + ".__init__", LANC + ".authenticate#hex_credentials", V3 + "._process_packet", V3 + ".read", V3 + "._encode_handshake_request", V3 + "._get_local_key", V3 + "._get_local_key#genuine", V3 + ".authenticate",
                         LANM + "_LanProtocol._flush", V3 + ".write", LANC + ".authenticate", DEVB + ".authenticate"], "level": "proof"},
     "C07": {"targets": [LANM + "_LanProtocol.connection_made", LANM + "_LanProtocol.connection_lost", LANC + ".__init__", LANC + ".max_connection_lifetime!setter", V3 + ".__init__", LANM + "_LanProtocol.__init__", V3 + ".write", LANM + "_LanProtocol.write", V3 + ".authenticate", V3 + ".authenticated", LANM + "_LanProtocol.alive",
                         LANC + "._alive", LANC + "._connect", LANC + "._disconnect", LANC + ".authenticate", LANC + ".send"], "level": "proof"},
